@@ -50,3 +50,15 @@ def names():
 
 # Optimizers whose population is variable by design (property C10 names them).
 VARIABLE_POPULATION = ("BeeColonyOptimization", "ForestOptimizationAlgorithm", "ImperialistCompetitiveOptimization")
+
+
+def optional_fields(optimizer):
+    """algorithm fields of the config model that have a default and are absent from the documented-scale config"""
+    r = load()[optimizer]
+    out = {}
+    for k, f in r["cfg_cls"].model_fields.items():
+        if k in r["params"] or k in BASE_FIELDS:
+            continue
+        if isinstance(f.default, (bool, int, float)):
+            out[k] = f.default
+    return out
